@@ -177,6 +177,35 @@ func DiffTree(got, want *model.Coll, path []string) *Mismatch {
 	return nil
 }
 
+// DiffCount counts the entries (keys at every level, child collections)
+// in which an observed tree differs from a reference tree.
+func DiffCount(got, want *model.Coll) int {
+	n := 0
+	for k, wv := range want.KV {
+		if gv, ok := got.KV[k]; !ok || !bytes.Equal(gv, wv) {
+			n++
+		}
+	}
+	for k := range got.KV {
+		if _, ok := want.KV[k]; !ok {
+			n++
+		}
+	}
+	for name, wc := range want.Ch {
+		if gc, ok := got.Ch[name]; ok {
+			n += DiffCount(gc, wc)
+		} else {
+			n += 1 + len(wc.KV)
+		}
+	}
+	for name, gc := range got.Ch {
+		if _, ok := want.Ch[name]; !ok {
+			n += 1 + len(gc.KV)
+		}
+	}
+	return n
+}
+
 // SnapAt descends to a child path; the caller closes the returned
 // snapshot if closeIt is true.
 func SnapAt(root moss.Snapshot, path []string) (s moss.Snapshot, closeIt bool, err error) {
